@@ -14,7 +14,7 @@ class C03(Prop):
     id = "C03"
     driver = "Broker"
     quick_n = 350
-    thorough_n = 15000
+    thorough_n = 60000
     rule = ("prior holdings reached through a random trade history (long, short, leveraged, mixed spot/futures), then a "
             "rebalance to target weights (negative, > 1, zeros) or numbers of contracts with no threshold, then an "
             "immediate second rebalance to the same target; fees and spreads of all kinds. Non-trivial = non-empty "
